@@ -22,6 +22,8 @@ from rules import nul
 def run(ctx, prog):
     from rules import rawio
     rawio.run(ctx, prog, readers=False)
+    from rules import nulldata
+    nulldata.run(ctx, prog)
     # ---------------------------------------------------------------- R-BUFGUARD
     rule = "R-BUFGUARD"
     n = 0
